@@ -8,6 +8,10 @@ IMPOSSIBLE = [
     "31.11.2020 10:00", "30.2.2019 - 31.2.2019", "3 days 30.2.2019 - 31.2.2019", "31.06. for 3 days", "29.02.2023 for 1 month", "am 31.09. um 8 uhr",
     "31/04/2018", "31-04-2018", "31.04.18", "from 31.04.2018 to 02.05.2018", "before 30.02.2020", "after 31.04.", "31.04. 8:00 - 10:00", "29.02.",
     "29. februar 2021", "31.02.2020 - 01.03.2020", "monday 31.04.2018", "31.04.2018 morning", "2 nights 29.02.2019 - 31.02.2019",
+    # the century rule: 1900 is the one year the year pattern can produce in which a 4-year rule and the calendar disagree,
+    # 2000 the one in which a 100-year rule without the 400-year exception does
+    "29.02.1900", "29.02.1900 for 2 days", "29.02.1900 9-5", "29. februar 1900", "feb 29 1900", "1 day 28.02.1900-29.02.1900", "29/2/1900 14:30",
+    "29.02.2000", "29.02.2000 for 2 days", "29.02.2000 9-5", "feb 29 2000 at noon", "28.02.2000 - 29.02.2000", "29.02.00", "29.02.00 for 1 week",
 ]
 MODIFIER_STACKS = [
     "late very late evening", "early early early morning", "very early very early morning", "sehr früh sehr spät abend", "late late late late night",
@@ -29,8 +33,13 @@ POD_RANGES = ["afternoon 12-2", "nachmittags 12-14 uhr", "abends 10-12", "abends
 SAME_HOUR_PAIRS = ["10.3.2021 12:30 - 10.3.2021 12 o'clock", "now to 12 o'clock today", "jetzt bis heute 12 uhr", "today 12:30 - today 12 o'clock",
                    "heute 12 uhr bis heute 12:45", "5.5.2020 8 o'clock until 5.5.2020 8:15", "tomorrow at 9 o'clock - tomorrow 9 o'clock",
                    "am 3.4.2022 um 23:59 bis 3.4.2022 23 uhr", "now - now", "jetzt bis jetzt"]
+# the same expression twice in one text (a rule that hands back a shared object, or a table keyed by value, shows only then)
+DOUBLED = [f % (e, e) for e in ("midnight", "mitternacht", "noon", "tomorrow", "monday", "5pm", "12.12.", "heute", "eom", "now", "first", "8 uhr", "3rd", "12am")
+           for f in ("%s %s", "sat %s - sun %s", "%s tomorrow %s", "%s bis %s")]
 TRIVIAL = ["", " ", "   ", "#foo", "#foo #bar", "  #x  ", "#", "# #", "#1", "#foo-bar_baz", "gargelbabel", "hello world", "#tag only words here",
-           "\t", "\n", ",;", "()", "-", "--", ".", "...", "#-", "a", "0", "00", "000", "0000", "00000"]
+           "\t", "\n", ",;", "()", "-", "--", ".", "...", "#-", "a", "0", "00", "000", "0000", "00000",
+           # every one-character and a few two-character texts that could be a time on their own
+           "1", "2", "3", "4", "5", "6", "7", "8", "9", "h", "m", "5.", "9h", "5 ", " 7", "12", "24", "31", "so", "mo", "um", "am", "5 #work", "#work 5"]
 INERT = ["zzz", "qqq", "lorem", "ipsum", "beers", "burgers", "xylophone", "buy", "gift", "dentist", "pizza"]
 SOUP_TOKENS = [
     "at", "on", "am", "um", "the", "von", "from", "between", "monday", "mo", "di", "march", "mar", "mai", "one", "eins", "twelve", "uhr", "h", "o'clock",
